@@ -319,6 +319,9 @@ pub fn fixed_cases() -> Vec<String> {
         // not LL(k) for small k
         "parol-ll S S:5,5,6|5,5,7 1",
         "parol-ll S S:{5},5 2",
+        // a non-terminal ending in usize::MAX used twice (finding F35 before its fix: panic in the
+        // type generation behind `generate_parser_export_model`)
+        "parol-ll S S:T18446744073709551615,T18446744073709551615;T18446744073709551615:6 1",
         // repetition in front of its own first token: needs k = 2
         "parol-ll S S:{5,6},5,7 1",
         "parol-ll S S:{5,6},5,7 2",
@@ -332,7 +335,7 @@ pub fn generate(seed: u64, thorough: bool) -> Vec<String> {
     let mut rng = Rng::new(seed ^ 0xC01D);
     let mut out = fixed_cases();
     let mut seen: std::collections::HashSet<String> = out.iter().cloned().collect();
-    let want = if thorough { 6000 } else { 700 };
+    let want = if thorough { 4000 } else { 500 };
     let (mut accepted, mut rejected, mut tries) = (0usize, 0usize, 0usize);
     while accepted < want && tries < want * 30 {
         tries += 1;
@@ -342,13 +345,12 @@ pub fn generate(seed: u64, thorough: bool) -> Vec<String> {
             _ => random_ll_ebnf(&mut rng, false),
         };
         let enc = show_ebnf(&prods);
-        // Names ending in usize::MAX are left to C26/C33: known finding F35 (`utils::generate_name`
-        // counts up from a parsed numeric suffix and overflows, utils/mod.rs:64) is reached here
-        // through a third route — `generate_parser_export_model` → `build_production_datatypes_export_model`
-        // → `SymbolTable::make_unique_name` when a production uses such a non-terminal twice, e.g.
-        // `S: T18446744073709551615 T18446744073709551615; T18446744073709551615: "t6";` (panic in
-        // debug builds; diagnostic request `parol-ll-where`).
-        if enc.len() > 400 || enc.contains("18446744073709551615") {
+        // Names ending in usize::MAX stay in: before the `fix:` for finding F35 (`utils::generate_name`
+        // counted up in usize, utils/mod.rs:64) they made `generate_parser_export_model` panic through
+        // `build_production_datatypes_export_model` → `SymbolTable::make_unique_name` when a production
+        // uses such a non-terminal twice (`S: T18446744073709551615 T18446744073709551615;
+        // T18446744073709551615: "t6";`); the diagnostic request `parol-ll-where` names the site.
+        if enc.len() > 400 {
             continue;
         }
         let k = rng.range(1, 3);
